@@ -42,7 +42,7 @@ def gen_sm(rng, corp, plain):
             if rng.random() < 0.2:
                 sf[k] = rng.choice(["", "value", "0.000=Song Start", "0.83"])
         for _ in range(rng.randint(0, 3)):
-            sf[cc.rand_key(rng, forbid=("NOTES", "FREEZES"), allow_meta=False)] = cc.rand_value(rng, 8) if rng.random() < 0.8 else None
+            sf[cc.rand_key(rng, forbid=("NOTES", "FREEZES", "STOPS", "BPMS", "ATTACKS", "DISPLAYBPM", "TITLE", "BGCHANGES", "ANIMATIONS"), allow_meta=False)] = cc.rand_value(rng, 8) if rng.random() < 0.8 else None
         if rng.random() < 0.15:
             sf[rng.choice(["FGCHANGES", "DISPLAYBPM", "GENRE", "INSTRUMENTTRACK"])] = None      # key-only parameters
     n = rng.choice([0, 1, 2, 3])
@@ -74,6 +74,8 @@ def c16_job(job):
         ctmpl.credit = "from chart template"
         ctmpl["XCHART"] = "kept"
         ctmpl.move_to_end("NOTES")
+        if rng.random() < 0.3:
+            ctmpl["NOTES2"] = ctmpl.pop("NOTES")        # a template whose note data is under the legacy spelling
     return cv.record_call(rid, "sm2ssc", src, tmpl, ctmpl, [], with_back=plain)
 
 
